@@ -285,7 +285,7 @@ def opRegs : List Event → List RegFile
 
 def tag (i : Nat) (ms : Msgs) : Msgs := ms.map fun m => s!"op{i}.{m}"
 
-def firstFew (l : Msgs) (n : Nat := 4) : String := "~".intercalate (l.take n)
+def firstFew (l : Msgs) (n : Nat := 8) : String := "~".intercalate (l.take n)
 
 structure Verdict where
   decode : String
